@@ -43,7 +43,7 @@ namespace nmtools::view
             , repeats(fwd_attribute(repeats_))
             , axis(fwd_attribute(axis_))
             , src_size(fwd_attribute(src_size_))
-            , dst_shape(index::shape_repeat(src_shape,repeats,axis))
+            , dst_shape(unwrap(index::shape_repeat(src_shape,repeats,axis)))
             , dst_size(index::product(dst_shape))
         {}
 
